@@ -325,6 +325,7 @@ def coq_sample(rows, work, fam, n=24):
     import props
     if not rows:
         return 0
+    n = getattr(props, "COQ_SAMPLE_N", {}).get(fam, n)     # a family of very large cases may ask for a smaller sample
     step = max(1, len(rows) // n)
     sample = [r for r in rows[::step] if len(r[0]) < 20000 and len(r[2]) < 20000][:n]
     if not sample:
